@@ -62,6 +62,10 @@ pub broadcast axiom fn axiom_std_max_i64(a: i64, b: i64)
 pub assume_specification [i64::abs](x: i64) -> (r: i64)
     requires x != i64::MIN,
     ensures r == (if x >= 0 { x as int } else { -(x as int) });
+// Option::map_or: the closure runs on the payload, the default is returned for None (assumed std contract)
+pub assume_specification<T, U, F: FnOnce(T) -> U> [Option::<T>::map_or](o: Option<T>, d: U, f: F) -> (r: U)
+    requires o matches Some(v) ==> f.requires((v,)),
+    ensures match o { Some(v) => f.ensures((v,), r), None => r == d };
 // std::cmp::Ordering is a plain enum: its PartialEq is structural equality
 pub assume_specification[ <Ordering as PartialEq>::eq ](a: &Ordering, b: &Ordering) -> (r: bool)
     ensures r == (*a == *b);
